@@ -251,15 +251,21 @@ def r3_detail_stripping(ctx):
     # the stripped texts are compared and that verdict replaces the first one
     cmp_ok = False
     for n in g.nodes:
-        if n.dup or n.kind != 'stmt' or not isinstance(n.ast, ast.Assign) or not isinstance(n.ast.value, ast.Call):
+        if n.dup or n.kind not in ('stmt', 'test') or not isinstance(n.ast, ast.AST):
             continue
-        c = n.ast.value
-        if _resolves_to(ctx, f, c, 'xdoctest.checker.check_output') and len(c.args) >= 2 and all(isinstance(a, ast.Name) for a in c.args[:2]):
-            srcs = [[d.value for d in rd.at(n, a.id)] for a in c.args[:2]]
-            if all(vs and all(isinstance(v, ast.Call) and _resolves_to(ctx, f, v, SQ) for v in vs) for vs in srcs):
-                flagvar = n.ast.targets[0].id if isinstance(n.ast.targets[0], ast.Name) else None
-                first = [d for d in rd.defs_of(flagvar)] if flagvar else []
-                cmp_ok = len(first) >= 2
+        for c in node_calls(n):
+            if not (_resolves_to(ctx, f, c, 'xdoctest.checker.check_output') and len(c.args) >= 2):
+                continue
+            def stripped(a):
+                if isinstance(a, ast.Call):
+                    return _resolves_to(ctx, f, a, SQ)
+                if isinstance(a, ast.Name):
+                    vs = [d.value for d in rd.at(n, a.id)]
+                    return bool(vs) and all(isinstance(v, ast.Call) and _resolves_to(ctx, f, v, SQ) for v in vs)
+                return False
+            if stripped(c.args[0]) and stripped(c.args[1]):
+                # the verdict is kept: assigned, returned or tested
+                cmp_ok = n.kind == 'test' or isinstance(n.ast, (ast.Assign, ast.Return, ast.AugAssign))
     rep.ob('C03.R3', ctx.loc(f, f.node), 'stripped got is compared with stripped want', cmp_ok,
            'the second comparison overwrites the verdict of the first' if cmp_ok else
            'the stripped texts are never compared (or the result is dropped): IGNORE_EXCEPTION_DETAIL has no effect, a traceback want that differs only in the message still fails', anchor=CE)
